@@ -86,6 +86,7 @@ EvUnlogged == Ev.k = "unlogged" /\ Ev.r.t \in {"closed", "none"} /\ UNCHANGED <<
 
 (* result of a structure checker hook (skip list, pending-entry indexes, pub/sub maps): must be ok *)
 EvChk == Ev.k = "chk" /\ Ev.ok = 1 /\ UNCHANGED <<S, devs>>
+(* a run of checker verdicts without any state in between validates as one step per event; failed ones reject *)
 
 (* an unsolicited frame read by client c: it must be one of the frames of the oldest publish the
    server still owes c (frames of one publish may come in any order) *)
@@ -160,6 +161,18 @@ EvAofReplay ==
   /\ (Ev.ok = 1 \/ devs # {})
   /\ UNCHANGED <<S, devs>>
 
+(* C10: a background save starts / has finished writing and renaming its dump *)
+EvBgStart == Ev.k = "bgstart" /\ S.bg = NoBg /\ S' = BgStart(S) /\ UNCHANGED devs
+EvBgDone == Ev.k = "bgdone" /\ S.bg # NoBg /\ S' = BgDone(S) /\ UNCHANGED devs
+(* a background save that failed or was killed: the previous dump stays *)
+EvBgDoneMaybe == Ev.k = "bgdonemaybe" /\ S.bg # NoBg /\ (S' = BgDone(S) \/ S' = [S EXCEPT !.bg = NoBg]) /\ UNCHANGED devs
+EvBgAbort == Ev.k = "bgabort" /\ S' = [S EXCEPT !.bg = NoBg] /\ UNCHANGED devs
+(* a SAVE with an injected write failure: answered by an error, nothing changes (the previous dump stays) *)
+EvSaveFail ==
+  /\ Ev.k = "savefail"
+  /\ Ev.r.t = "err"
+  /\ UNCHANGED <<S, devs>>
+
 EvNote == Ev.k = "note" /\ UNCHANGED <<S, devs>>
 
 EvDropped ==  \* the client saw the server close the connection
@@ -170,7 +183,7 @@ EvDropped ==  \* the client saw the server close the connection
 TraceNext ==
   /\ l <= N
   /\ l' = l + 1
-  /\ (EvOpen \/ EvClose \/ EvReset \/ EvCmd \/ EvNote \/ EvDropped \/ EvUnlogged \/ EvChk \/ EvPush \/ EvQuiesce \/ EvGone \/ EvRaw \/ EvConfig \/ EvServed \/ EvTimeout \/ EvBlockSnap \/ EvRestart \/ EvAofReplay)
+  /\ (EvOpen \/ EvClose \/ EvReset \/ EvCmd \/ EvNote \/ EvDropped \/ EvUnlogged \/ EvChk \/ EvPush \/ EvQuiesce \/ EvGone \/ EvRaw \/ EvConfig \/ EvServed \/ EvTimeout \/ EvBlockSnap \/ EvRestart \/ EvAofReplay \/ EvBgStart \/ EvBgDone \/ EvBgAbort \/ EvSaveFail \/ EvBgDoneMaybe)
   /\ IF l > TLCGet(1) THEN TLCSet(1, l) /\ TLCSet(3, S') ELSE TRUE   \* deepest matched event (last conjunct!)
 
 TraceSpec == TraceInit /\ [][TraceNext]_vars
